@@ -29,6 +29,28 @@
    only as the first of arrangement 4.  rd = [a, b, sc]; s = 0 (no seed).
    Every other input carries rd = NoRd.
 
+   Zero-sized family (added in the fourth round: an empty struct passed by value
+   killed the code generator, `union E {} e = {}` the parser): an object type of
+   size 0 in every context an object or a value can appear in.  zs = [z, c, p],
+   s = 0 (no seed).  z = the zero-sized type (harness ZTYPES: 1 empty struct,
+   2 empty union, 3 struct of a zero-length array, 4 struct of an empty struct,
+   5 struct of an array of empty structs and a zero-length array of double,
+   6 struct of a zero-width bit-field, 7 zero-length array, 8 array of empty
+   structs); 1..NZStruct are struct / union types, the others array types.
+   c = the context (harness CNAMES), 1..NValCtx use the *value* (parameter,
+   argument of a declared function, return value, member of a struct passed and
+   returned by value, assignment, ?: / comma / statement expression, variadic
+   argument, va_arg, named parameter of a variadic function, parameter after the
+   argument registers are exhausted, compound literal, call without prototype /
+   through a pointer / recursive) and need a type that can be passed and assigned
+   (z <= NZStruct); the others use the *object* (local, global, sizeof / _Alignof,
+   array element, member initializer, pointer arithmetic) and take every z.
+   p = 1..3 is the position / variant inside the context (first, middle, last
+   among an int and a double; plain, chained, through a pointer; ...).
+   Every other input carries zs = NoZs.  Level A: gcc accepts and runs every
+   member correctly except c = 18, p = 3 (pointer difference, which divides by
+   the size: gcc rejects it), so each must be Accepted or Diagnosed.
+
    One TLC state per edited input; every state emits its input (CSVWrite).  The
    quick tier takes the VERIF_SEED-selected 1/Stride (pairs: 1/PairStride) of
    this closed domain; the guard is evaluated before the edit is applied.      *)
@@ -38,6 +60,7 @@ CONSTANTS NAlpha,       \* size of the edit alphabet
           PairMax,      \* seeds of at most this many tokens also get pairs of edits
           PairTok,      \* alphabet indices used in pairs
           NDir, NEnd,   \* trailing directive lines 1..NDir (0 = none), endings 1..NEnd
+          NZ, NZStruct, NCtx, NValCtx,   \* zero-sized family: types 1..NZ (1..NZStruct struct/union), contexts 1..NCtx (1..NValCtx by value)
           Seed, Stride, PairStride, TailStride,
           Emit
 
@@ -73,19 +96,22 @@ Sel2(s, e1, e2) == ((Ix(s, e1) % 1000003) * 31 + (Ix(s, e2) % 1000003) + Seed) %
 
 NoTail == [d |-> 0, e |-> 0]
 NoRd == [a |-> 0, b |-> 0, sc |-> 0]
+NoZs == [z |-> 0, c |-> 0, p |-> 0]
+ZsOK(x) == x.z \in 1..NZ /\ x.c \in 1..NCtx /\ x.p \in 1..3 /\ (x.c <= NValCtx => x.z <= NZStruct)
+Zeros == {[s |-> 0, ed |-> <<>>, tail |-> NoTail, rd |-> NoRd, zs |-> r] : r \in {x \in [z : 1..NZ, c : 1..NCtx, p : 1..3] : ZsOK(x)}}
 FileKinds == 1..7
 BlockKinds == 1..8
-Redecls == {[s |-> 0, ed |-> <<>>, tail |-> NoTail, rd |-> r] :
+Redecls == {[s |-> 0, ed |-> <<>>, tail |-> NoTail, zs |-> NoZs, rd |-> r] :
               r \in    [a : FileKinds, b : FileKinds, sc : {1}]
                   \cup [a : BlockKinds, b : BlockKinds, sc : {2, 5}]
                   \cup [a : FileKinds, b : BlockKinds, sc : {3}]
                   \cup [a : {9}, b : BlockKinds, sc : {4}]}
 Sel3(s, d, e) == (s * 7919 + d * 104729 + e * 1299709 + Seed) % TailStride = 0
 
-Singles(L) == {x \in UNION {[s : {s}, ed : {<<e>> : e \in EditsOf(L[s], 1..NAlpha)}, tail : {NoTail}, rd : {NoRd}] : s \in 1..Len(L)} :
+Singles(L) == {x \in UNION {[s : {s}, ed : {<<e>> : e \in EditsOf(L[s], 1..NAlpha)}, tail : {NoTail}, rd : {NoRd}, zs : {NoZs}] : s \in 1..Len(L)} :
                  Sel1(x.s, x.ed[1])}
-Tails(L) == {x \in [s : 1..Len(L), ed : {<<>>}, tail : [d : 0..NDir, e : 1..NEnd], rd : {NoRd}] : Sel3(x.s, x.tail.d, x.tail.e)}
-Pairs(L) == UNION {UNION {{[s |-> s, ed |-> <<e1, e2>>, tail |-> NoTail, rd |-> NoRd] :
+Tails(L) == {x \in [s : 1..Len(L), ed : {<<>>}, tail : [d : 0..NDir, e : 1..NEnd], rd : {NoRd}, zs : {NoZs}] : Sel3(x.s, x.tail.d, x.tail.e)}
+Pairs(L) == UNION {UNION {{[s |-> s, ed |-> <<e1, e2>>, tail |-> NoTail, rd |-> NoRd, zs |-> NoZs] :
                              e2 \in {e \in EditsOf(Len(Apply(Ident(L[s]), e1)), PairTok) : Sel2(s, e1, e)}} :
                           e1 \in EditsOf(L[s], PairTok)} :
                    s \in {z \in 1..Len(L) : L[z] <= PairMax}}
@@ -100,21 +126,23 @@ Result(x) == IF x.s = 0 THEN <<>>
              ELSE Apply(Apply(Ident(SeedLens[x.s]), x.ed[1]), x.ed[2])
 
 Init == /\ lens = SeedLensFromFile
-        /\ cur \in Singles(lens) \cup Pairs(lens) \cup Tails(lens) \cup Redecls
+        /\ cur \in Singles(lens) \cup Pairs(lens) \cup Tails(lens) \cup Redecls \cup Zeros
         /\ done = FALSE
 Next == /\ ~done /\ done' = TRUE /\ UNCHANGED <<cur, lens>>
-        /\ Emit => CSVWrite("%1$s", <<ToJson([s |-> cur.s, ed |-> cur.ed, tail |-> cur.tail, rd |-> cur.rd, r |-> Result(cur)])>>, IOEnv.OUT)
+        /\ Emit => CSVWrite("%1$s", <<ToJson([s |-> cur.s, ed |-> cur.ed, tail |-> cur.tail, rd |-> cur.rd, zs |-> cur.zs, r |-> Result(cur)])>>, IOEnv.OUT)
 Spec == Init /\ [][Next]_<<cur, done, lens>>
 
 (* what an edited input is: only seed tokens and alphabet tokens, length within the edit distance, and
    really different from the seed's own index sequence *)
 WellFormed ==
-  IF cur.s = 0
-  THEN cur.rd.sc \in 1..5 /\ cur.rd.b \in 1..8 /\ cur.rd.a \in 1..9
+  IF cur.s = 0 /\ cur.zs # NoZs
+  THEN cur.rd = NoRd /\ ZsOK(cur.zs)
+  ELSE IF cur.s = 0
+  THEN cur.zs = NoZs /\ cur.rd.sc \in 1..5 /\ cur.rd.b \in 1..8 /\ cur.rd.a \in 1..9
        /\ (cur.rd.a = 9 <=> cur.rd.sc = 4) /\ (cur.rd.sc = 1 => cur.rd.a # 8 /\ cur.rd.b # 8)
   ELSE
   LET n == SeedLens[cur.s]  r == Result(cur)  m == Len(cur.ed) IN
-  /\ cur.rd = NoRd
+  /\ cur.rd = NoRd /\ cur.zs = NoZs
   /\ Len(r) \in (n - m)..(n + m)
   /\ \A j \in 1..Len(r) : r[j] \in 1..n \/ -r[j] \in 1..NAlpha
   /\ (m = 1 => r # Ident(n))
